@@ -4,6 +4,9 @@
 #[derive(Clone)]
 pub struct Rng {
     s: [u64; 4],
+    /// "tape" mode (coverage-guided tier): decisions are read from these bytes, eight per draw, so that a fuzzer
+    /// mutating one byte changes one decision; when the tape runs out the generator continues pseudo-randomly
+    tape: Option<(std::sync::Arc<Vec<u8>>, usize)>,
 }
 
 fn splitmix(x: &mut u64) -> u64 {
@@ -39,7 +42,14 @@ impl Rng {
             splitmix(&mut x),
             splitmix(&mut x),
         ];
-        Rng { s }
+        Rng { s, tape: None }
+    }
+
+    /// Decisions come from `tape` first (see the field), then from a generator seeded by its hash.
+    pub fn from_tape(tape: &[u8]) -> Self {
+        let mut r = Rng::new(hash_bytes(tape));
+        r.tape = Some((std::sync::Arc::new(tape.to_vec()), 0));
+        r
     }
 
     pub fn for_case(seed: u64, check: &str, shard: u64, case: u64) -> Self {
@@ -50,6 +60,15 @@ impl Rng {
     }
 
     pub fn next_u64(&mut self) -> u64 {
+        if let Some((t, pos)) = &mut self.tape {
+            if *pos + 8 <= t.len() {
+                let mut b = [0u8; 8];
+                b.copy_from_slice(&t[*pos..*pos + 8]);
+                *pos += 8;
+                // the byte a one-byte draw looks at is the first tape byte, the low bits of a `below` draw the next
+                return u64::from_be_bytes(b);
+            }
+        }
         let s = &mut self.s;
         let result = s[1].wrapping_mul(5).rotate_left(7).wrapping_mul(9);
         let t = s[1] << 17;
